@@ -82,6 +82,14 @@ def compactLen : Bytes → Option (Nat × Nat)
       | [] => none
       | b2 :: _ => some (b0.toNat % 128 + 128 * (b1.toNat % 128) + 16384 * b2.toNat, 3)
 
+/-- the WRITER of the compact length, `rfbSendCompressedDataTight` (tight.c): `len & 0x7F`, then
+`len >> 7 & 0x7F`, then `len >> 14 & 0xFF`, continuation bit 0x80 on the first two; the thresholds from
+which the second / third byte is written are read from the C text by T0 -/
+def encCompact (n : Nat) : Bytes :=
+  if n < compactTwoFrom then [UInt8.ofNat (n % 128)]
+  else if n < compactThreeFrom then [UInt8.ofNat (n % 128 + 128), UInt8.ofNat (n / 128 % 128)]
+  else [UInt8.ofNat (n % 128 + 128), UInt8.ofNat (n / 128 % 128 + 128), UInt8.ofNat (n / 16384 % 256)]
+
 /-- filter header after the control byte of a basic-compression rectangle:
 (bytes of filter id + palette, length of the pixel data before compression) -/
 def tightFilter (pix w h : Nat) (explicit : Bool) (r : Bytes) : Option (Nat × Nat) :=
